@@ -458,6 +458,14 @@ static bool gen_random(Ctx& ctx, Case& c, int cls) {
   int64_t hw = std::max<int64_t>(2, (int64_t)(M * r.real(0.02, 0.3))), hh = std::max<int64_t>(2, (int64_t)(M * r.real(0.02, 0.3)));
   if (r.chance(0.2)) hh = std::max<int64_t>(2, hw / r.irange(4, 40));       // thin rectangles
   int64_t cx = r.range(-M / 8, M / 8), cy = r.range(-M / 8, M / 8);
+  if (cls == 0 && r.chance(0.3)) {                           // rectangle far from the origin (absolute coordinates >> its size)
+    int sh = r.irange(2, 12);
+    hw = std::max<int64_t>(2, hw >> sh); hh = std::max<int64_t>(2, hh >> sh);
+    int64_t room = M - 8 * std::max(hw, hh) - 2;
+    if (room > 0) { cx = r.coin() ? r.range(-room, room) : (r.coin() ? 1 : -1) * (room - r.range(0, room / 64));
+                    cy = r.coin() ? r.range(-room, room) : (r.coin() ? 1 : -1) * (room - r.range(0, room / 64)); }
+    ctx.count("gen_random_rect_far_from_origin");
+  }
   RB R{ cx - hw, cy - hh, cx + hw, cy + hh };
   double diag = sqrt((double)hw * hw + (double)hh * hh);
   int k = r.chance(0.5) ? 1 : r.irange(2, 4);
@@ -489,6 +497,26 @@ static bool gen_random(Ctx& ctx, Case& c, int cls) {
           case 1: p = gen::random_poly(r, px, py, (int64_t)Rr, r.irange(3, 14)); break;
           case 2: { int nn = r.irange(5, 13); p = gen::star_polygon(r, px, py, Rr, nn, r.irange(2, std::max(2, nn / 2))); break; }
           default: p = gen::star_shaped(r, px, py, Rr, r.irange(3, 6), 0.6, 1.0, r.coin()); break;
+        }
+        if (r.chance(0.2)) {
+          // shallow crossing: a triangle with one long edge nearly parallel to a side that crosses that side's line
+          // (run : rise up to 2^32 : 1), third vertex anywhere
+          bool horz_side = r.coin();
+          int64_t side = horz_side ? (r.coin() ? R.t : R.b) : (r.coin() ? R.l : R.r);
+          int64_t lo = horz_side ? R.l : R.t, hi = horz_side ? R.r : R.b, len = hi - lo;
+          int64_t along = r.chance(0.7) ? r.range(lo, hi) : (r.coin() ? lo - r.range(0, len / 4 + 2) : hi + r.range(0, len / 4 + 2));
+          int64_t rise = r.range(1, 1 + (r.chance(0.5) ? 16 : 4096));
+          int64_t run = (int64_t)std::ldexp(r.real(1.0, 2.0), r.irange(4, std::max(5, e - 1)));
+          int64_t t1 = r.range(0, 3), t2 = r.range(1, 3), shf = r.range(0, run - 1);
+          int64_t sgn = r.coin() ? 1 : -1, sg2 = r.coin() ? 1 : -1;
+          auto cl = [&](int64_t v) { return std::min(std::max(v, -M), M); };
+          Point64 a, b;
+          if (horz_side) { a = Point64(cl(along - sgn * (t1 * run + shf)), cl(side - sg2 * (t1 * rise + (shf ? 1 : 0)))); b = Point64(cl(along + sgn * t2 * run), cl(side + sg2 * t2 * rise)); }
+          else { a = Point64(cl(side - sg2 * (t1 * rise + (shf ? 1 : 0))), cl(along - sgn * (t1 * run + shf))); b = Point64(cl(side + sg2 * t2 * rise), cl(along + sgn * t2 * run)); }
+          Point64 third(cl(px + r.range(-(int64_t)Rr, (int64_t)Rr)), cl(py + r.range(-(int64_t)Rr, (int64_t)Rr)));
+          p = Path64{ a, b, third };
+          if (r.coin()) std::reverse(p.begin(), p.end());
+          ctx.count("gen_shallow_crossing_triangles");
         }
         // sometimes snap a few vertices onto the rectangle's sides / corners (touching configurations off-lattice)
         if (r.chance(0.25)) for (auto& q : p) if (r.chance(0.3)) {
